@@ -1374,9 +1374,11 @@ func (k *c18) runMulti(c *core.Ctx, i int, cs c18case) {
 		text, _ := c18Text(r, size)
 		t := &c18target{name: name, mode: c18Modes[r.Intn(len(c18Modes))]}
 		if bad {
-			broken, how, _ := c18Break(r, text)
-			for how == "truncated" {
-				broken, how, _ = c18Break(r, text)
+			// only texts that are unparseable by construction: a cut (anywhere, inside a keyword,
+			// inside a balance line) may fall into a comment or a description and still parse
+			broken, how, sure := c18Break(r, text)
+			for !sure {
+				broken, how, sure = c18Break(r, text)
 			}
 			t.T, t.how = []byte(broken), how
 			return t, true
